@@ -242,7 +242,7 @@ def sparse_repeat(sparse, *repeat_sizes):
             adding_factor = torch.arange(0, repeat_size, dtype=new_indices.dtype, device=new_indices.device).unsqueeze_(
                 1
             )
-            new_indices[i].view(repeat_size, -1).add_(adding_factor)
+            new_indices[i].view(repeat_size, -1).add_(adding_factor * sparse.size(i))
             sparse = torch.sparse_coo_tensor(
                 new_indices,
                 sparse._values().repeat(repeat_size),
